@@ -1,8 +1,65 @@
-(* C08 — property theorems (statements only; proofs live in Proofs*.v). *)
-From Coq Require Import List ZArith QArith Bool.
-Require Import QV.C08.Model QV.C08.Spec QV.C08.Proofs.
+(* C08 — property theorems (statements only; proofs live in Proofs*.v).  See notes/C08.md for the status of each. *)
+From Coq Require Import List ZArith QArith Qabs Bool.
+Require Import QV.C08.Model QV.C08.Spec QV.C08.Wf QV.C08.Proofs QV.C08.ProofsVec QV.C08.ProofsRev.
 Import ListNotations.
+Open Scope Q_scope.
 
-Theorem C08_placeholder_syntactic_eq : forall a b, Qsyn_eqb a b = true -> a = b.
-Proof. exact Qsyn_eqb_eq. Qed.
-Print Assumptions C08_placeholder_syntactic_eq.
+(* ---- sampling is pointwise: the vectorised sampler equals the pointwise meaning on every sorted grid ---- *)
+Theorem C08_pointwise : forall w c ts, sortedb ts = true -> sample_vec w c ts = map (sample w c) ts.
+Proof. exact sample_vec_pointwise. Qed.
+Print Assumptions C08_pointwise.
+
+Theorem C08_independent_of_other_times : forall w c ts1 ts2 t i j,
+  sortedb ts1 = true -> sortedb ts2 = true -> nth_error ts1 i = Some t -> nth_error ts2 j = Some t ->
+  nth_error (sample_vec w c ts1) i = nth_error (sample_vec w c ts2) j.
+Proof. exact sample_vec_independent. Qed.
+Print Assumptions C08_independent_of_other_times.
+
+Theorem C08_get_sampled_pointwise : forall w c ts vals, get_sampled w c ts = OK vals -> vals = map (gs w c) ts.
+Proof. exact get_sampled_pointwise. Qed.
+Print Assumptions C08_get_sampled_pointwise.
+
+(* ---- equality ---- *)
+Theorem C08_eq : forall a b, wf_eqb a b = true ->
+  channels a = channels b /\ duration a = duration b /\
+  (forall c, cv a c = cv b c) /\ (forall c t, sample a c t = sample b c t) /\
+  (forall c ts, get_sampled a c ts = get_sampled b c ts) /\ (forall (H : Type) (hash : wf -> H), hash a = hash b).
+Proof. exact eq_same_behaviour. Qed.
+Print Assumptions C08_eq.
+
+(* ---- reversal ---- *)
+Theorem C08_reverse_plain : forall w c t, sample (WRev w) c t = sample w c (duration w - t).
+Proof. exact rev_plain_mirror. Qed.
+Print Assumptions C08_reverse_plain.
+
+Definition C08_reverse_statement : Prop :=
+  forall w c t, oQeq (sample (reversed w) c t) (sample w c (duration w - t)).
+Theorem C08_reverse_partial : forall w c t, is_rev w = false -> sample (reversed w) c t = sample w c (duration w - t).
+Proof. exact reversed_mirror_partial. Qed.
+Print Assumptions C08_reverse_partial.
+
+Definition C08_involution_statement : Prop :=
+  forall w c t, oQeq (sample (reversed (reversed w)) c t) (sample w c t).
+Theorem C08_involution_partial : forall w c t, is_rev_rev w = false -> sample (reversed (reversed w)) c t = sample w c t.
+Proof. exact reversed_involution_partial. Qed.
+Print Assumptions C08_involution_partial.
+
+(* ---- totality: refuted on the unchanged code (known findings C08-nan-at-duration, C08-reversed-composite-junction) ---- *)
+Definition C08_total_statement : Prop :=
+  forall w c t, okb w = true -> inb c (channels w) = true -> 0 <= t -> t <= duration w -> exists v, gs w c t = Some v.
+Theorem C08_total_refuted :
+  exists w c t, okb w = true /\ inb c (channels w) = true /\ Qle_bool 0 t = true /\ Qle_bool t (duration w) = true
+                /\ gs w c t = None /\ get_sampled w c [t] = OK [None].
+Proof. exact total_refuted_at_duration. Qed.
+Print Assumptions C08_total_refuted.
+Theorem C08_total_reversed_refuted :
+  exists w c t, okb w = true /\ inb c (channels w) = true /\ Qeq_bool t 0 = true /\ Qltb t (duration w) = true
+                /\ gs w c t = None /\ get_sampled w c [t] = OK [None].
+Proof. exact total_refuted_reversed_at_zero. Qed.
+Print Assumptions C08_total_reversed_refuted.
+Theorem C08_reversed_junction_refuted :
+  exists w c t, okb w = true /\ inb c (channels w) = true /\ Qltb 0 t = true /\ Qltb t (duration w) = true
+                /\ oQeqb (gs (WRev w) c t) (Some 5) = true /\ oQeqb (den (WRev w) c t) (Some 2) = true
+                /\ oQeqb (gs (WRev w) c t) (den (WRev w) c t) = false.
+Proof. exact reversed_junction_refuted. Qed.
+Print Assumptions C08_reversed_junction_refuted.
